@@ -1,6 +1,7 @@
 package rules
 
 import (
+	"go/constant"
 	"go/types"
 	"go/ast"
 	"go/token"
@@ -398,6 +399,69 @@ func runC11(p *eng.Prog, r *eng.Report, tier string) {
 			c.r.Check("C11.7", f, "encodes String()", "P: XML encoding emits String()", f.Pos(), len(f.Calls("jid.JID.String")) == 1, "no call of String")
 		}
 	}
+	// ---- C11.4b the canonical domainpart has no trailing label separator ----------------
+	// UTS #46 mapping turns U+3002/U+FF0E/U+FF61 into '.', and the Display
+	// profile accepts empty labels: a dot stripped only BEFORE the mapping can
+	// come back. A domainpart that ends in '.' re-parses to a different JID.
+	if nd := c.fn("C11.4", "jid", "normalizeDomainpart"); nd != nil {
+		g := nd.Graph()
+		isTrim := func(q eng.Point, n ast.Node) bool {
+			found := false
+			ast.Inspect(n, func(x ast.Node) bool {
+				if cl, ok := x.(*ast.CallExpr); ok {
+					cid := nd.CalleeID(cl)
+					if (cid == "strings.TrimSuffix" || cid == "strings.TrimRight") && len(cl.Args) == 2 {
+						if cv := nd.ConstVal(cl.Args[1]); cv != nil && constant.StringVal(cv) == "." {
+							found = true
+						}
+					}
+				}
+				return !found
+			})
+			return found
+		}
+		n := 0
+		for _, cl := range nd.Calls("golang.org/x/net/idna.Profile.ToUnicode") {
+			cp, _ := g.Where(cl)
+			for _, rs := range g.Returns {
+				rp, _ := g.Where(rs)
+				if g.RetKindOf(rs) == eng.RetError || !g.Reachable(g.After(cp), rp, nil, nil) {
+					continue
+				}
+				n++
+				c.r.Check("C11.4", nd, "trailing dot stripped from the mapped domainpart", "O: every success path after the IDNA mapping strips trailing label separators from the MAPPED value", rs.Pos(), g.MustPassBefore(g.After(cp), rp, isTrim, nil), "the mapped domainpart can end in '.' (from U+3002, U+FF0E, U+FF61 or an empty label): its string form parses to a different address")
+			}
+		}
+		c.r.Floor("C11.4", "success returns after the IDNA mapping", n, 1)
+	}
+	// ---- C11.8 no constructor appends into memory another JID can see ----------------
+	// JIDs are values that share their backing array when copied (Bare(),
+	// Domain(), the receiver itself): appending in place rewrites addresses
+	// that were handed out earlier. Every append-style call whose result
+	// becomes a JID's data starts from a slice allocated in the same function.
+	nap := 0
+	for _, f := range c.allFns() {
+		if !strings.HasPrefix(f.Short, "jid.") || f.Body == nil {
+			continue
+		}
+		g := f.Graph()
+		for _, cl := range f.AllCalls() {
+			cid := f.CalleeID(cl)
+			isAppend := cid == "builtin.append" || strings.HasSuffix(cid, ".Append")
+			if !isAppend || len(cl.Args) < 1 {
+				continue
+			}
+			t := f.Info().TypeOf(cl.Args[0])
+			if t == nil || eng.TypeStr(t) != "[]byte" {
+				continue
+			}
+			nap++
+			pt, _ := g.Where(cl)
+			okf, why := freshSlice(f, cl.Args[0], pt, map[*eng.Def]bool{})
+			c.r.Check("C11.8", f, "append target of "+cid, "E-alias: a JID's bytes are only ever appended to in a buffer allocated by the same call (copies of a JID share their backing array)", cl.Pos(), okf, why)
+		}
+	}
+	c.r.Floor("C11.8", "append-style calls on byte slices in package jid", nap, 4)
 }
 
 func c11ParamIndex(f *eng.Fn, v *types.Var) (int, bool) {
